@@ -218,3 +218,11 @@ func Main(in io.Reader, out io.Writer, progress *os.File, env *Env, from, limit 
 	}
 	fmt.Fprintf(w, "{\"done\":true,\"traces\":%d,\"steps\":%d,\"fails\":%d}\n", traces, steps, fails)
 }
+
+func jsonStr(v interface{}) string {
+	b, err := json.Marshal(v)
+	if err != nil {
+		return fmt.Sprint(v)
+	}
+	return string(b)
+}
